@@ -109,6 +109,24 @@ def P_C01(ctx, log, **kw):
                     out.append(f"{j} began {t} at event {p} while {k}'s step {s} (due {act(s, d)}) had not finished (step+get_data)")
             if e['asyn']:
                 pass
+    # the same statement in terms of demanded steps: a step of a provider that had already been demanded (queued) when the
+    # consumer began, and whose output is due at or before the consumer's step, must have been finished by then - whether or
+    # not the run later gets far enough to execute it
+    dem = demands_of(ctx, log)
+    for (p, j, t, _, _) in begins:
+        for e in ctx.edges:
+            if e['b'] != j: continue
+            for (k, s), (dn, _) in dem.items():
+                if k != e['a']: continue
+                if dn >= p:
+                    # demanded only after the consumer began: then it must not be due at or before the consumer's step
+                    if act(s, e['delay']) <= t and not any(b[1] == k and b[2] == s and b[0] < p for b in begins):
+                        out.append(f"{j} began {t} at event {p}; afterwards (event {dn}) a step {s} of its input provider {k} was demanded whose output over the "
+                                   f"{e['kind']} connection {e['sa']}->{e['da']} is due at {act(s, e['delay'])} <= {t}")
+                    continue
+                if act(s, e['delay']) <= t and done.get((k, s), 10 ** 9) > p:
+                    out.append(f"{j} began {t} at event {p} while the step {s} of its input provider {k}, demanded at event {dn} and due at "
+                               f"{act(s, e['delay'])} over the {e['kind']} connection {e['sa']}->{e['da']}, was still outstanding")
     return out
 
 
@@ -202,7 +220,17 @@ def hyp_C03(ctx, case):
             outs = b.get('outputs', {})
             if any('po' not in v[1] for v in outs.values()): bad.append('x:persistent_incomplete'); break
     for k, b in enumerate(case['beh']):
-        if any(v[0] is not None for v in b.get('outputs', {}).values()) and any(e['a'] == f'S{k}' for e in ctx.edges):
+        if not any(e['a'] == f'S{k}' for e in ctx.edges): continue
+        # F14 is about output times that GO BACK (a future-stamped output followed by one stamped earlier); output times that
+        # are stamped into the future but never decrease along the producer's steps are inside the property
+        seq = []
+        for key, v in b.get('outputs', {}).items():
+            tt, sub = (int(x) for x in key.split(','))
+            seq.append(((tt, sub), v[0] if v[0] is not None else tt))
+        seq.sort()
+        times = [ot for _, ot in seq]
+        explicit = any(v[0] is not None for v in b.get('outputs', {}).values())
+        if explicit and (any(a > c for a, c in zip(times, times[1:])) or b.get('type') == 'time-based'):
             bad.append('nonmonotone'); break                                                 # F14
     return bad
 
@@ -255,6 +283,10 @@ def P_C09(ctx, log, outcome_kind='ok', outcome_sim=None, maxloop=100, **kw):
     # "loops that settle within the bound are never interrupted": the guard may only fire for a simulator one of whose
     # demanded (not yet executed) steps carries a sub-step index that reached the bound; the demanded tiered times are
     # recomputed from the replies in the trace (demands_of), not taken from the scheduler
+    # "... and simulation time then advances normally": when the run completes, every demanded step (also those of later
+    # time steps, after a loop has settled) has been executed exactly once
+    if outcome_kind == 'ok':
+        out += ['simulation time does not advance normally: ' + x for x in P_C02(ctx, log, outcome='ok') if 'was executed' in x]
     if outcome_kind == 'loop':
         dem = demands_of(ctx, log)
         begun = {(l[1], tuple(l[2])) for l in log if l[0] == 'BEGIN'}
